@@ -37,6 +37,11 @@ THEOREMS = [
     "C16_roundtrip_unchanged",
     "C16_midrun_copy",
     "C16_by_value",
+    "C16_schedule_independent_lists",
+    "C16_body_failure",
+    "C16_history_failures",
+    "C16_nested",
+    "C16_nested_table",
 ]
 RULE = (
     "real for-nodes made by for_node / Cls.for_node / node.iter / node.zip / as a workflow child fed through data "
@@ -73,6 +78,9 @@ BODIES = {
     "B4": {"inputs": ["a", "b", "c", "d"], "defaults": {"d": "dd"}, "outputs": ["o"], "sym": {"o": "g"}},
     "B3": {"inputs": ["a", "b", "c"], "defaults": {}, "outputs": ["p", "q"], "sym": {"p": "p", "q": "q"}},
     "BC": {"inputs": ["a", "b", "c"], "defaults": {}, "outputs": ["a", "r"], "sym": {"a": "h", "r": "r"}},
+    # a MACRO as body (two chained function nodes computing what B3 computes) and a LOOP as body (for in for)
+    "MB": {"inputs": ["a", "b", "c"], "defaults": {}, "outputs": ["p", "q"], "sym": {"p": "p", "q": "q"}},
+    "NB": {"inputs": ["a", "b", "c"], "defaults": {}, "outputs": ["df"], "sym": {"df": "@inner"}},
     "B12": {"inputs": [f"x{i}" for i in range(12)], "defaults": {"x11": "e"}, "outputs": ["o", "o2"],
             "sym": {"o": "w", "o2": "v"}},
 }
@@ -243,7 +251,17 @@ def canon(v):
         return f"{v[0]}(" + ",".join(canon(x) for x in v[1:]) + ")"
     if isinstance(v, list):
         return "[" + ",".join(canon(x) for x in v) + "]"
+    if hasattr(v, "to_dict") and hasattr(v, "columns"):  # an inner table (loop as loop body)
+        cols = [str(c) for c in v.columns]
+        return "T{" + "|".join(cols) + ":" + ";".join("|".join(canon(r[c]) for c in cols)
+                                                       for r in v.to_dict("records")) + "}"
     return str(v)
+
+
+def _inner_ref(a, b, c):
+    """the table the inner loop (B3 iterated over `a`, `b` and `c` broadcast) returns, in `canon` form"""
+    rows = [[ref_canon(x), ref_canon(("p", x, b, c)), ref_canon(("q", x, b, c))] for x in a]
+    return "T{a|p|q:" + ";".join("|".join(r) for r in rows) + "}"
 
 
 def ref_canon(v):
@@ -278,6 +296,10 @@ def _colmaps(body, iter_on, zip_on):
         res = [None, {"p": "P"}, {"p": "q", "q": "p"}, {"p": "x", "q": "y"}]
         if bc:
             res.append({"q": bc[-1]})
+    elif body == "MB":
+        res = [None, {"p": "P"}, {"p": "q", "q": "p"}]
+    elif body == "NB":
+        res = [None, {"df": "inner"}]
     elif body == "BC":
         if "a" in looped:
             res = [{"a": "out_a"}, {"a": "r", "r": "s"}]
@@ -362,7 +384,7 @@ def _lehmer_all(n):
 def gen_cases(rng, tier):
     quick = tier == "quick"
     # 1. structured random for-node cases
-    n_rand = 1800 if quick else 16000
+    n_rand = 1300 if quick else 16000
     bodies = ["B4", "B4", "B3", "BC"]
     for _ in range(n_rand):
         body = rng.choice(bodies)
@@ -508,7 +530,7 @@ def gen_cases(rng, tier):
 
     # 5e. pickling: round trips of the loop node at rest (in memory / through a save file) and copies restored
     #     from a pickle taken WHILE the bodies of a run are out; the history continues on the copy
-    for i in range(120 if quick else 1200):
+    for i in range(90 if quick else 1200):
         body = rng.choice(["B4", "B4", "B3", "BC"])
         inputs = BODIES[body]["inputs"]
         roles = rng.choice(list(_splits(inputs)))
@@ -543,7 +565,7 @@ def gen_cases(rng, tier):
     # 5f. the loop node ITSELF (or the workflow owning it) on a by-value executor: every run happens on a pickled
     #     copy that is merged back. Histories: run -> new values, same lengths -> other lengths -> unchanged run
     #     (-> round trip -> grown lists), to be compared with the reference table and the model's plain runs
-    for i in range(90 if quick else 900):
+    for i in range(70 if quick else 900):
         body = rng.choice(["B4", "B4", "B3", "BC"])
         inputs = BODIES[body]["inputs"]
         roles = rng.choice(list(_splits(inputs)))
@@ -569,6 +591,92 @@ def gen_cases(rng, tier):
         case["runs"][3]["set"] = {}
         if entry != "wf" and rng.random() < 0.3:
             case["runs"][rng.choice([0, 2])]["pickle"] = "after"
+        yield case
+
+    # 5g. a body copy FAILS at iteration k (the value "BAD" reaches it): locally and on the controlled executor with
+    #     arbitrary completion orders; then the cause is removed and the same node runs again
+    for i in range(70 if quick else 700):
+        body = rng.choice(["B4", "B3", "MB"])
+        inputs = BODIES[body]["inputs"]
+        roles = rng.choice(list(_splits(inputs)))
+        iter_on = [k for k, r in zip(inputs, roles) if r == "i"]
+        zip_on = [k for k, r in zip(inputs, roles) if r == "z"]
+        looped = iter_on + zip_on
+        cms = [c for c in _colmaps(body, iter_on, zip_on) if _columns_distinct(body, iter_on, zip_on, c)]
+        lens_seq = [{k: rng.randint(1, 3) for k in looped} for _ in range(rng.choice([2, 3, 3]))]
+        case = _mk_case(rng, body, roles, rng.random() < 0.5, rng.choice(cms), rng.random() < 0.8,
+                        rng.choice(["for_node", "cls"]), rng.random() < 0.5, lens_seq)
+        bad_run = rng.randrange(len(case["runs"]) - 1)
+        vals = dict(case["init"])
+        for r, run in enumerate(case["runs"]):
+            run.pop("exec", None)
+            vals.update(run["set"])
+            if r == bad_run:
+                k = rng.choice(looped) if rng.random() < 0.85 else rng.choice(inputs)
+                if k in looped:
+                    lst = list(vals.get(k) or ["x"])
+                    lst[rng.randrange(len(lst))] = "BAD"
+                    new = lst
+                else:
+                    new = "BAD"
+                (case["init"] if r == 0 else run["set"])[k] = new
+                vals[k] = new
+                # the next run repairs it
+                nxt = case["runs"][r + 1]["set"]
+                if k not in nxt or (isinstance(nxt[k], list) and "BAD" in nxt[k]) or nxt[k] == "BAD":
+                    nxt[k] = [f"{k}r{j}" for j in range(len(new))] if isinstance(new, list) else k.upper() + "r"
+        yield case
+
+    # 5h. a MACRO as loop body
+    for _ in range(50 if quick else 500):
+        inputs = BODIES["MB"]["inputs"]
+        roles = rng.choice(list(_splits(inputs)))
+        iter_on = [k for k, r in zip(inputs, roles) if r == "i"]
+        zip_on = [k for k, r in zip(inputs, roles) if r == "z"]
+        lens_seq = [{k: rng.randint(1, 4) for k in iter_on + zip_on} for _ in range(rng.choice([1, 2, 3]))]
+        yield _mk_case(rng, "MB", roles, rng.random() < 0.5, rng.choice(_colmaps("MB", iter_on, zip_on)),
+                       rng.random() < 0.8, rng.choice(["for_node", "cls"]), rng.random() < 0.4, lens_seq)
+
+    # 5i. a LOOP as loop body (for in for, zip inside iterate): the inner loop iterates its `a`; the outer loop
+    #     iterates / zips lists of lists for `a` and lists for `b`, `c`; re-runs shrink and grow (oracle only)
+    for _ in range(50 if quick else 400):
+        roles = rng.choice([r for r in _splits(["a", "b", "c"])])
+        iter_on = [k for k, r in zip("abc", roles) if r == "i"]
+        zip_on = [k for k, r in zip("abc", roles) if r == "z"]
+        runs, init = [], {}
+        for r in range(rng.choice([1, 2, 3])):
+            sets = {}
+            for k in "abc":
+                if r and rng.random() < 0.4:
+                    continue
+                n = rng.randint(1, 3)
+                inner = lambda tag: [f"a{tag}{j}" for j in range(rng.randint(1, 3))]  # noqa: E731
+                if k in iter_on + zip_on:
+                    sets[k] = [inner(f"{r}{i}") for i in range(n)] if k == "a" else [f"{k}{r}{i}" for i in range(n)]
+                else:
+                    sets[k] = inner(str(r)) if k == "a" else f"{k.upper()}{r}"
+            if r == 0:
+                init = sets
+                sets = {}
+            run = {"set": sets, "how": rng.choice(["call", "setrun"])}
+            runs.append(run)
+        executor = rng.random() < 0.3
+        if executor:
+            for run in runs:
+                run["sched"] = [rng.randrange(0, 6) for _ in range(8)]
+        yield {"kind": "for", "body": "NB", "iter": iter_on, "zip": zip_on, "df": rng.random() < 0.5,
+               "colmap": rng.choice([None, {"df": "inner"}]), "use_cache": True, "entry": "for_node",
+               "executor": executor, "init": init, "runs": runs}
+
+    # 5j. depth: the loop node inside a macro inside a workflow, body copies on the controlled executor with
+    #     arbitrary completion orders; re-runs with other lengths through the macro's inputs
+    for _ in range(40 if quick else 400):
+        lens_seq = [{"a": rng.randint(1, 3), "b": rng.randint(1, 3)} for _ in range(rng.choice([2, 3]))]
+        case = _mk_case(rng, "B3", ("i", "z", "b"), True, None, True, "deep", rng.random() < 0.7, lens_seq,
+                        bc_list_p=0.0)
+        case["iter"], case["zip"] = ["a"], ["b"]
+        for run in case["runs"]:
+            run.pop("exec", None)
         yield case
 
     # 5b. body nodes on REAL executors (threads, processes): the completion order is whatever it is
@@ -725,6 +833,27 @@ def corpus():
                         {"set": {"a": ["4", "5"], "b": ["50", "60", "70"], "c": ["8", "9"], "d": "z"}, "how": "setrun"},
                         {"set": {}, "how": "call"},
                         {"set": {"a": ["4", "5", "6", "7"], "c": ["8", "9", "0"]}, "how": "assign"}]}
+    # a body copy fails at iteration 1 of 3 (locally; on the executor with the failing one completing first), repaired
+    yield {"kind": "for", "body": "B3", "iter": ["a"], "zip": [], "df": True, "colmap": None, "use_cache": True,
+           "entry": "for_node", "executor": False, "init": {"a": ["a0", "BAD", "a2"], "b": "B", "c": "C"},
+           "runs": [{"set": {}, "how": "call"}, {"set": {}, "how": "call"}, {"set": {"a": ["a0", "a1", "a2"]}, "how": "call"}]}
+    yield {"kind": "for", "body": "B4", "iter": ["a"], "zip": ["b"], "df": False, "colmap": None, "use_cache": True,
+           "entry": "cls", "executor": True, "init": {"a": ["a0", "a1"], "b": ["b0", "BAD"], "c": "C"},
+           "runs": [{"set": {}, "how": "call", "sched": [1, 2, 0, 0]},
+                    {"set": {"b": ["b0", "b1", "b2"]}, "how": "setrun", "sched": [5, 4, 3, 2, 1, 0]}]}
+    # macro as body; loop as body (for in for); loop inside macro inside workflow
+    yield {"kind": "for", "body": "MB", "iter": ["a"], "zip": ["b"], "df": True, "colmap": {"p": "P"}, "use_cache": True,
+           "entry": "for_node", "executor": True, "init": {"a": ["a0", "a1"], "b": ["b0", "b1"], "c": "C"},
+           "runs": [{"set": {}, "how": "call", "sched": [3, 0, 1, 0]}, {"set": {"a": ["x"]}, "how": "call", "sched": [1, 0]}]}
+    yield {"kind": "for", "body": "NB", "iter": ["a"], "zip": [], "df": True, "colmap": {"df": "inner"},
+           "use_cache": True, "entry": "for_node", "executor": False,
+           "init": {"a": [["a0", "a1"], ["a2"]], "b": "B", "c": "C"},
+           "runs": [{"set": {}, "how": "call"}, {"set": {"a": [["x"]]}, "how": "call"},
+                    {"set": {"a": [["x", "y", "z"], ["w"], ["v", "u"]]}, "how": "call"}]}
+    yield {"kind": "for", "body": "B3", "iter": ["a"], "zip": ["b"], "df": True, "colmap": None, "use_cache": True,
+           "entry": "deep", "executor": True, "init": {"a": ["a0", "a1"], "b": ["b0", "b1", "b2"], "c": "C"},
+           "runs": [{"set": {}, "how": "call", "sched": [3, 2, 1, 0]}, {"set": {"a": ["z"]}, "how": "call", "sched": [1, 0]},
+                    {"set": {}, "how": "call", "sched": []}]}
     # pickling: at rest, through a file, mid-run (history continues on the copy), after a failed run
     yield {"kind": "for", "body": "B4", "iter": ["a"], "zip": ["b"], "df": True, "colmap": {"o": "O"}, "use_cache": True,
            "entry": "for_node", "executor": True, "init": {"a": ["a0", "a1"], "b": ["b0", "b1", "b2"], "c": "C"},
@@ -812,7 +941,7 @@ def _outs_view(df_form, get):
 def _pickle_mode(case, run):
     """which round trip follows / accompanies this run (None: none)"""
     how = run.get("pickle")
-    if not how or case["entry"] in ("iter", "zip", "wf"):
+    if not how or case["entry"] in ("iter", "zip", "wf", "deep"):
         return None
     if how == "mid":
         return "mid" if (case["executor"] is True and run.get("exec", True)) else None
@@ -875,6 +1004,13 @@ def _run_for(case):
             try:
                 if case["entry"] == "cls":
                     f = Body.for_node(**kw, **init)
+                elif case["entry"] == "deep":
+                    # loop inside macro inside workflow (layout fixed by the macro: iterate a, zip b, broadcast c)
+                    from pyiron_workflow import Workflow
+
+                    wf = Workflow("c16deep", autoload=None)
+                    wf.add_child(nodes_c16.LoopMacro(**init), label="m")
+                    f = wf.children["m"].loop
                 elif case["entry"] == "wf":
                     # the loop node as a child of a workflow; its inputs are fed through data connections
                     from pyiron_workflow import Workflow
@@ -925,6 +1061,11 @@ def _run_for(case):
                     df = meth(body_node_executor=body_exec, output_column_map=case["colmap"],
                               **{k: list(case["init"][k]) for k in looped})
                     ret = {"df": df}
+                elif case["entry"] == "deep":
+                    for k, v in sets.items():
+                        setattr(wf.children["m"].inputs, k, v)
+                    wf.run()
+                    f = wf.children["m"].loop
                 elif wf is not None:
                     from pyiron_workflow import Workflow
 
@@ -984,7 +1125,8 @@ def _run_for(case):
             if f is not None:
                 in_labels = list(f.inputs.labels)
                 children = [_child_name(f, c, in_labels) for c in f]
-                order = [int(x[5:]) for x in f.provenance_by_completion if x.startswith("body_")]
+                order = [int(x[5:]) for x in f.provenance_by_completion if x.startswith("body_")
+                         and x in f.children and not f.children[x].failed]  # the body copies that DELIVERED
                 n_children = len(f)
             else:
                 children, order, n_children = None, [], None
@@ -992,7 +1134,7 @@ def _run_for(case):
             obs.append(line)
             if children is not None:
                 obs.append("ch " + " ".join(children))
-                if case["df"] and _columns_distinct(case["body"], case["iter"], case["zip"], case["colmap"]):
+                if _columns_distinct(case["body"], case["iter"], case["zip"], case["colmap"]):
                     obs.append(_wire_view(f, in_labels))
             idle.before = None
             how_p = _pickle_mode(case, run)
@@ -1105,6 +1247,8 @@ def model_input(case, impl=None):
         return lines
     spec = BODIES[case["body"]]
     lines = []
+    if case["body"] == "NB":
+        return lines
     for k in spec["inputs"]:
         lines.append(f"in {k} {spec['defaults'].get(k, '-')}")
     for o in spec["outputs"]:
@@ -1164,9 +1308,20 @@ def _reference(case, vals):
             env.update(dict(zip(zip_on, zvals)))
             row = {k: ref_canon(env[k]) for k in iter_on + zip_on}
             for o in spec["outputs"]:
-                row[colmap.get(o, o)] = ref_canon((spec["sym"][o], *[env[k] for k in spec["inputs"]]))
+                if case["body"] == "NB":
+                    row[colmap.get(o, o)] = _inner_ref(env["a"], env["b"], env["c"])
+                else:
+                    row[colmap.get(o, o)] = ref_canon((spec["sym"][o], *[env[k] for k in spec["inputs"]]))
             rows.append(row)
     return rows
+
+
+def corr_view(case, impl):
+    """loop-as-body cases are checked by the oracle only (the model's body is an uninterpreted function; the
+    driver has no term constructor for an inner table)"""
+    if case.get("kind") == "for" and case.get("body") == "NB":
+        return None
+    return impl["obs"]
 
 
 def _expected_children(case, vals):
@@ -1244,6 +1399,13 @@ def oracle(case, r):
                                 f"{ {x: len(vals[x]) for x in looped} }", trigger="zero-length"))
             continue
         ref = _reference(case, vals)
+        if any("BAD" in v for row in ref for v in row.values()):
+            # a body copy FAILS for some row: the statement promises a row only where the body computes something.
+            # Demanded: no normal return with a table (a row silently missing or rows shifted); the run must raise
+            if ro["res"] == "ok" and complete:
+                fails.append(_f("table-despite-failure", case, k, f"a body fails, yet the run returned "
+                                f"{len(got_rows)} rows", trigger="body-failure"))
+            continue
         if ro["res"] != "ok":
             fails.append(_f("run-refused", case, k, f"{ro['res']} ({ro['err']}) for lengths "
                             f"{ {x: len(vals[x]) for x in looped} }", trigger=ro["res"]))
